@@ -72,12 +72,25 @@ def items(tier, seed):
         # a history is only interesting if it ends with an observation
         hs = [h for h in hs if not h[-1].startswith("set")]
         for ch in K.chunks(hs, 60):
-            its.append(("hist", (m, ch)))
+            its.append(("hist", (m, ch, False)))
+        # the same histories with the deep-tree (iterative) algorithms forced from outside:
+        # every compile / gradient in the history goes through the iterative builders
+        short = [h for h in hs if len(h) <= (2 if tier == "quick" else 3)]
+        for ch in K.chunks(short, 60):
+            its.append(("hist", (m, ch, True)))
     return its
 
 
-def run_history(model, hist, planted=False):
+def run_history(model, hist, planted=False, deep=False):
     """executes one history on the real code; returns result records"""
+    if deep:
+        from vf.props import c15
+        old = c15.set_thresholds(0)
+        try:
+            return [dict(r, what="[iterative builders] " + r["what"], sig=(r["sig"] + "|deep") if "sig" in r else None) if r.get("sig") else dict(r, what="[iterative builders] " + r["what"])
+                    for r in run_history(model, hist, planted, False)]
+        finally:
+            c15.restore_thresholds(old)
     from optyx.core import autodiff as A
     from optyx.core import compiler as C
     from vf.engine import npshim, smt
@@ -202,11 +215,15 @@ def run_history(model, hist, planted=False):
 def check(item):
     kind, payload = item
     if kind == "hist":
-        m, hs = payload
+        m, hs, deep = payload
         out = []
         for h in hs:
             try:
-                out += run_history(m, h)
+                rr = run_history(m, h, deep=deep)
+                for r in rr:
+                    if r.get("replay"):
+                        r["replay"]["deep"] = deep
+                out += rr
             except Exception as e:  # noqa: BLE001
                 import traceback
                 out.append(harness_error(f"{type(e).__name__}: {e}", item=f"{m['tag']}:{h}", tb=traceback.format_exc()[-1500:]))
@@ -230,6 +247,13 @@ def replay(payload):
     from optyx.core import compiler as C
     model = K.dec(payload["model"])
     hist = payload["hist"]
+    if payload.get("deep"):
+        from vf.props import c15
+        old = c15.set_thresholds(0)
+        try:
+            return replay(dict(payload, deep=False))
+        finally:
+            c15.restore_thresholds(old)
     rng = random.Random(12)
     names = LM.model_names(model)
     for attempt in range(5):
